@@ -548,6 +548,19 @@ def rule_fill(prog: Program) -> List[Instance]:
         out.append(Instance("R-FILL", f"{d.qual}#covered-chunk-fill", OK if ok else BAD,
                             f"covered chunks are warped through {via} ({'which applies the float NaN default' if via == 'rio_reproject' else 'with a resolved fill value'})" if ok
                             else f"covered chunks call `{via}` with the raw dst_nodata on a zero-initialised block: unreached float pixels become 0 while uncovered chunks and the in-memory path give NaN", d.where(n)))
+        # the warp either works plane by plane or is told where the y axis is
+        in_plane_loop = False
+        q = parent(n)
+        while q is not None and q is not d.node:
+            if isinstance(q, ast.For) and "planes_yx" in short(q.iter):
+                in_plane_loop = True
+            q = parent(q)
+        yd = next((k.value for k in n.keywords if k.arg == "ydim"), None)
+        axis_p = "axis" if "axis" in d.param_names() else None
+        ok_axis = in_plane_loop or (yd is not None and axis_p is not None and axis_p in Origins(d).deps(yd))
+        out.append(Instance("R-FILL", f"{d.qual}#plane-axis", OK if ok_axis else BAD,
+                            "chunks are warped plane by plane (planes_yx)" if in_plane_loop else ("the y-axis position is passed on as ydim" if ok_axis else
+                            "the per-chunk warp neither iterates 2-d planes nor passes ydim=axis: rasters with a trailing band axis are warped along the wrong axes"), d.where(n)))
         for kw in ("src_nodata", "dst_nodata", "resampling"):
             kv = next((k.value for k in n.keywords if k.arg == kw), None)
             ok2 = isinstance(kv, ast.Name) and kv.id == kw
